@@ -870,8 +870,14 @@ def cli_cases(g, group, thorough):
                     lbl += ": "
                 if (seg, off) not in touched:
                     touched.append((seg, off))
-                kind = r.randrange(6)
-                if kind == 0:
+                kind = r.randrange(8)
+                if kind == 6:
+                    v = r.choice([0, 1, 127, 128, 255, -1, -3, -128, r.randrange(256)]); c = r.choice([0, 1, 3, 9])
+                    lines.append(lbl + "db [%s%s,%s%s]" % (v if v < 0 else g.num(v, v), r.choice(["", " "]), r.choice(["", " "]), g.num(c, c))); put([v % 256] * c)
+                elif kind == 7:
+                    v = r.choice([0, 1, 0x1234, 0x8000, 0xFFFF, -1, -2, -32768, r.randrange(65536)]); c = r.choice([0, 1, 2, 5])
+                    lines.append(lbl + "dw [%s%s,%s%s]" % (v if v < 0 else g.num(v, v), r.choice(["", " "]), r.choice(["", " "]), g.num(c, c))); put([v % 256, (v // 256) % 256] * c)
+                elif kind == 0:
                     v = r.choice([0, 1, 127, 128, 255, -1, -128, r.randrange(256)])
                     lines.append(lbl + r.choice(["db", "DB"]) + " " + str(v)); put([v % 256])
                 elif kind == 1:
